@@ -6,15 +6,27 @@ import (
 	"io/fs"
 	"os"
 	"path/filepath"
+	"runtime"
+	"runtime/debug"
 	"strings"
 )
 
 // importSrc calls gta on the source code for the package identified by
 // importPath. rPath is the relative path to the directory containing the source
 // code for the package. It can also be "main" as a special value.
-func (interp *Interpreter) importSrc(rPath, importPath string, skipTest bool) (string, error) {
+func (interp *Interpreter) importSrc(rPath, importPath string, skipTest bool) (name string, err error) {
 	var dir string
-	var err error
+
+	// The package level code and the init functions of an imported package are
+	// executed here: return a panic raised by interpreted code as an error,
+	// as Execute does, instead of crashing the caller.
+	defer func() {
+		if r := recover(); r != nil {
+			var pc [64]uintptr // 64 frames should be enough.
+			n := runtime.Callers(1, pc[:])
+			name, err = "", Panic{Value: r, Callers: pc[:n], Stack: debug.Stack()}
+		}
+	}()
 
 	if interp.srcPkg[importPath] != nil {
 		name, ok := interp.pkgNames[importPath]
